@@ -300,8 +300,11 @@ def run_driver(lines, timeout=3000):
     with open(inp, "w") as f:
         for l in lines:
             f.write(l + "\n")
+    exe = os.path.join(LEAN, ".lake", "build", "bin", "pffdriver")
+    # compiled driver (built by `lake build pffdriver` together with the models; 10-50x faster), else the interpreter
+    cmd = [exe] if (os.path.exists(exe) and os.environ.get("PFF_DRIVER_INTERPRETED") != "1") else ["lake", "env", "lean", "--run", "Pff/Driver.lean"]
     with open(inp) as fin:
-        p = subprocess.run(["lake", "env", "lean", "--run", "Pff/Driver.lean"], cwd=LEAN, stdin=fin,
+        p = subprocess.run(cmd, cwd=LEAN, stdin=fin,
                            stdout=subprocess.PIPE, stderr=subprocess.PIPE, text=True, timeout=timeout)
     os.remove(inp)
     out = p.stdout.split("\n")
